@@ -40,6 +40,7 @@ type Obj struct {
 	Slots []Value
 	ID    int
 	Tag   string // diagnostics: what it was allocated for
+	shadow *objShadow // race detection (per path, see race.go)
 	// mutex / ghost state for sync primitives living inside this object is
 	// kept in the interpreter keyed by (obj, off).
 }
@@ -286,6 +287,9 @@ func (it *Interp) allocType(t types.Type, tag string) *Obj {
 }
 
 func (it *Interp) setSlot(o *Obj, i int, v Value) {
+	if it.race != nil {
+		it.raceMem(o, i, 1, true)
+	}
 	if it.trailOn && o.ID <= it.trailBase {
 		it.trail = append(it.trail, trailEntry{obj: o, idx: i, old: o.Slots[i]})
 	}
@@ -317,16 +321,25 @@ func (it *Interp) load(p PtrV, t types.Type) Value {
 	}
 	l := it.layoutOf(t)
 	if p.Sym != nil {
+		if it.race != nil {
+			it.raceMem(p.Obj, p.Off, p.N, false)
+		}
 		return it.selectSlots(p.Obj, p.Off, p.N, p.Sym)
 	}
 	if l.leaf {
 		if p.Off >= len(p.Obj.Slots) {
 			it.unsupported(fmt.Sprintf("load past object end (%s, off %d, size %d)", p.Obj.Tag, p.Off, len(p.Obj.Slots)))
 		}
+		if it.race != nil {
+			it.raceMem(p.Obj, p.Off, 1, false)
+		}
 		return p.Obj.Slots[p.Off]
 	}
 	if p.Off+l.size > len(p.Obj.Slots) {
 		it.unsupported(fmt.Sprintf("aggregate load past object end (%s)", p.Obj.Tag))
+	}
+	if it.race != nil {
+		it.raceMem(p.Obj, p.Off, l.size, false)
 	}
 	out := make([]Value, l.size)
 	copy(out, p.Obj.Slots[p.Off:p.Off+l.size])
@@ -421,6 +434,9 @@ func (it *Interp) mkStr(s string) StrV { return StrV{S: s} }
 func (it *Interp) strByte(s StrV, i int) *sym.Term {
 	if s.Obj == nil {
 		return it.S.Const(8, uint64(s.S[i]))
+	}
+	if it.race != nil {
+		it.raceMem(s.Obj, s.Off+i, 1, false)
 	}
 	return s.Obj.Slots[s.Off+i].(*sym.Term)
 }
